@@ -104,7 +104,7 @@ def hook_paths(rep: C.Report) -> None:
         if missing:
             ob.verdict, ob.detail = C.NOT_ENCODABLE, f"call sites / selection test not found: {missing}"
             return
-        if not bad:
+        if not bad and not C.distrust():
             ob.verdict = C.DISCHARGED
             return
         # replay through the public API with recording hooks over a small catalogue
@@ -143,8 +143,10 @@ def replay_hooks():
                 # reference: count of expanded calls = number of template_fn calls; with the marker every expanded {{a}} yields the marker verbatim
                 if mode == "marker":
                     n_a = sum(1 for n, _ in calls if n == "a")
-                    if out.count("<M:a>") != n_a and "{{a" not in doc.replace("{{a|{{a|x}}}}", ""):
-                        return (f"expand({doc!r}, {kwt}, template_fn=<marker for a>)", True, f"template_fn returned a marker {n_a} times but the output {out!r} contains it {out.count('<M:a>')} times")
+                    # (in the nested document the outer marker replaces the inner one: 2 calls, 1 marker in the text)
+                    want = 1 if doc == "{{a|{{a|x}}}}" and n_a == 2 else n_a
+                    if out.count("<M:a>") != want:
+                        return (f"expand({doc!r}, {kwt}, template_fn=<marker for a>)", True, f"template_fn returned a marker {n_a} times, the output {out!r} contains it {out.count('<M:a>')} times (expected {want})")
                 if len(posts) > len(calls):
                     return (f"expand({doc!r}, {kwt}) with recording hooks", True, f"post_template_fn called {len(posts)} times, template_fn {len(calls)} times")
     return ("hook replay catalogue", False, "")
@@ -182,7 +184,7 @@ def hook_arguments(rep: C.Report) -> None:
             problems.append("hook call sites not found")
         ob.conditions = ob.queries = ob.paths = len(tf) + len(ptf)
         ob.samples.append({"argument_maps": sorted(maps), "template_fn_calls": len(tf), "post_template_fn_calls": len(ptf), "problems": problems})
-        if not problems:
+        if not problems and not C.distrust():
             ob.verdict = C.DISCHARGED
             ob.confirmed_conditions = ob.conditions
             return
@@ -233,7 +235,7 @@ def reemit_roundtrip(rep: C.Report) -> None:
             ob.verdict, ob.detail = C.NOT_ENCODABLE, "_finalize_expand not found"
             return
         ob.conditions = ob.queries = ob.paths = 1
-        if P15.fixpoint_loop(fn):
+        if P15.fixpoint_loop(fn) and not C.distrust():
             ob.verdict = C.DISCHARGED
             ob.confirmed_conditions = 1
             return
